@@ -28,7 +28,7 @@ def kinds_of(shape):
     n, f, fp, pat = shape["n"], shape["fault"], shape["fpos"], shape["pat"]
     out = []
     for j in range(1, n + 1):
-        if f in "EPNMASCDWRZT" and len(f) == 1 and j == fp:
+        if f in "EPNMASCDWRZTG" and len(f) == 1 and j == fp:
             out.append(f)
         elif pat == "allU":
             out.append("U")
@@ -67,6 +67,8 @@ def file_text(shape, j, kinds, formatted=False):
         pre += f"mod missing{j};\n"
     if k == "A":
         pre += f"mod amb{j};\n"
+    if k == "G":
+        pre += f"cfg_if! {{\n    if #[cfg(unix)] {{\n        mod missing{j};\n    }}\n}}\n"
     if k == "S":
         return (f"#![rustfmt::skip]\n{decl}fn  k{j}( ){{}}\n").encode(), None
     if k == "E":
@@ -319,7 +321,7 @@ def observe(sc, layout, code, out, err):
     for r, shape in enumerate(roots):
         kinds = kinds_of(shape)
         failing = shape["fault"] in ("badtoml", "vermismatch", "missing", "dir") or \
-            any(k in "EPNMACDR" for k in kinds)
+            any(k in "EPNMACDRG" for k in kinds)
         if failing:
             continue
         for j, k in enumerate(kinds, 1):
